@@ -49,41 +49,54 @@ CHECKS["C11"] = dict(engine="value", category="proof", design_ref="DESIGN.md §5
          "equality stands for hash-stream equality.",
     technique="Coq proof over the byte model + correspondence on all pairs")
 CHECKS["C16"] = dict(engine="policy", category="proof", design_ref="DESIGN.md §5 C16",
-    text="Coq model of policy/ast.rs, serialize.rs (generic over the constructor algebra: node trees, CMR-only, Hiding), "
-         "satisfy.rs and sort: root homomorphism (Policy::cmr = compiled root = root of every satisfied/pruned program, for any "
-         "tagged hash), satisfy succeeds iff the policy holds for a truthful satisfier (under the stated cost premise, shown "
-         "necessary), returned programs evaluate to unit in a mini big-step semantics with jets as oracle, sort idempotent, "
-         "canonical and invariant under reordering at any depth; old sort refuted. Correspondence with real keys/signatures.",
+    text="Coq model of policy/ast.rs, serialize.rs (generic over the constructor algebra: node trees, CMR-only, Hiding),"
+         " satisfy.rs and sort: root homomorphism (Policy::cmr = compiled root = root of every satisfied/pruned program,"
+         " for any tagged hash), satisfy succeeds iff the policy holds for a truthful satisfier (under the stated cost p"
+         "remise, shown necessary), sort idempotent, canonical and invariant under reordering at any depth; old sort ref"
+         "uted. The returned programs are translated into Core terms, proved well typed at 1->1 with eval = unit, and by"
+         " C05's theorem run successfully on the Bit Machine model within the static bounds (policy jets eq/add/verify p"
+         "roved equal to JetSpec). Correspondence with real keys/signatures.",
     note="Trusted: Coq kernel, hand-written model, jets as an oracle (truthful hypothesis), harness with secp256k1 keys; type "
          "inference inside the constructors and IHR identity are idealised.",
     technique="Coq proof (algebra homomorphism, induction on policies) + correspondence")
 
 CHECKS["C01"] = dict(engine="codec", category="proof", design_ref="DESIGN.md §5 C01/C02, §11.3",
-    text="Coq model of encode_node/decode_node/encode_program/decode_expression over Bits/Natural.v and the real jet code tables "
-         "(C14): syntax round trip for every index-well-formed node list, prefix-freeness, canonical programs are written as "
-         "themselves and read back, witness stream round trip and uniqueness (Ty/Ty.v), encoder output accepted by the decoder "
-         "proved exhaustively for small tables (general statement kept visible, unproved). Equality of types/IHR/AMR after "
-         "re-inference is tested on the implementation only (node-by-node comparison, re-encode, libsimplicity as third decoder).",
+    text="Coq model of encode_node/decode_node/encode_program/decode_expression over Bits/Natural.v and the real jet cod"
+         "e tables (C14). Proved for all sizes: syntax round trip, prefix-freeness, the encoder's traversal is C18's pos"
+         "t-order specification, encoder output of any well-formed program whose ids respect sharing is accepted by the "
+         "decoder model and decodes to the same node list up to the sharing quotient (also with hidden nodes), witness s"
+         "tream round trip; and, using C04's principal-type theorem and the Merkle definitions, re-inference on the deco"
+         "ded quotient gives the same arrows and hence the same IHR/AMR at every node for any hash (end-to-end fixed-poi"
+         "nt theorem). The open finding F-C01 is characterised exactly: for the twin witness no type-respecting quotient"
+         " exists and the AMRs differ under a free hash. Correspondence includes SHA-256 CMR/IHR/AMR of every node of th"
+         "e decoded program computed in Coq (sampled), three-way with libsimplicity for Elements programs; the witness c"
+         "lause is independent of the library's own decoder (values built by constructors, read back through accessors).",
     note="Trusted: Coq kernel, hand-written model, python bit assembler as independent reference, harness. Open finding F-C01 "
          "(identity-hash sharing merges IHR-equal nodes that differ below) is excused only under a checked structural predicate.",
     technique="Coq proof of the codec core + correspondence + direct round-trip test on generated programs")
 CHECKS["C02"] = dict(engine="codec", category="proof", design_ref="DESIGN.md §5 C01/C02, §11.3",
-    text="For the Coq decoder model: whatever it accepts is the encoding of the node list it returns followed by the unread bits "
-         "(canonicity), it never panics or runs out of fuel, an accepted table is in canonical post-order, re-encoding an accepted "
-         "program reproduces the bits/bytes for any injective assignment of sharing ids, one rejection theorem per canonicity rule "
-         "with accepting counterparts. Typing inside decode, stack depth and allocation are not modelled: every input is run "
-         "through all three decoders in debug and release builds in isolated processes with time and memory limits.",
+    text="For the Coq decoder model: whatever it accepts is the encoding of the node list it returns followed by the unr"
+         "ead bits (canonicity), it never panics or runs out of fuel, an accepted table is in canonical post-order, re-e"
+         "ncoding an accepted program reproduces the bits/bytes for any injective assignment of sharing ids and also whe"
+         "n some ids are absent (commitment time), one rejection theorem per canonicity rule with accepting counterparts"
+         ". Typing inside decode, stack depth and allocation are not modelled: every input is run through all three deco"
+         "ders in debug and release builds in isolated processes with time and memory limits.",
     note="Trusted: as C01. Open finding F-C02b (recursive unifier overflows the native stack for a ~37 KB program) is printed as "
          "KNOWN-FINDING for that generator family only.",
     technique="Coq proof of decoder canonicity/totality + correspondence + mutation-based search on byte strings")
 
 CHECKS["C04"] = dict(engine="infer", category="proof", design_ref="DESIGN.md §5 C04, §11.3",
-    text="Coq reference of type inference over node tables (constraint generation exactly as arrow.rs, unification closure with "
-         "occurs check at the end, free variables to unit): sound (every node satisfies its rule), complete (finalises iff a "
-         "finite typing exists), total, principal (the result is the least typing in the ty_le order - proved in full), order "
-         "independent under any renumbering compatible with the DAG order, bounded display of incomplete types; the unbounded "
-         "display of complete types inside errors is refuted (F-C04). The Rust union-find is tied to the reference by "
-         "correspondence on all/random construction orders; an independent python unifier is the oracle of the direct test.",
+    text="Coq reference of type inference over node tables (constraint generation exactly as arrow.rs, unification closu"
+         "re with occurs check at the end, free variables to unit): sound, complete (finalises iff a finite typing exist"
+         "s), total, principal (least typing, proved in full), order independent; unification computes exactly the (poss"
+         "ibly infinite-tree) models of the equation set, so success and the error class are functions of the set of equ"
+         "ations; bounded display of incomplete types, unbounded display of complete types inside errors refuted (F-C04)"
+         " also on the error path. The Rust union-find and slab (path halving, ranks, bind arms, eager completion, occur"
+         "s check with in_progress/completed) are modelled as written: union-find layer and bind against complete types "
+         "proved sound, full refinement kept as a statement and compared on every case. Streams: type-directed programs,"
+         " hubs (one variable at >= 3 leaves grounded first/middle/last), almost-well-typed programs against every asymm"
+         "etric jet, and all DAGs up to 4 (quick) / 5 (thorough) nodes over a small alphabet in every construction order"
+         ".",
     note="Trusted: Coq kernel, hand-written reference, harness. Open findings F-C02 (recursive unifier), F-C04 (exponential "
          "error text), F-C04b (recursive Drop of Final) are printed as KNOWN-FINDING for their generator families only.",
     technique="Coq proof about a reference inference algorithm + correspondence with the Rust union-find")
@@ -105,29 +118,36 @@ CHECKS["C12"] = dict(engine="redeem", category="proof", design_ref="DESIGN.md §
          "outside the claim).",
     technique="Coq proof over the typed-value specification + correspondence over all routes")
 CHECKS["C03"] = dict(engine="cdiff", category="other", design_ref="DESIGN.md §5 C03, §11.3",
-    text="No theorem can mention the C code (no verified-C front end is installed), so this is a differential check: Rust "
-         "decode/typecheck verdict, CMR, AMR, IHR and cost vs a staged port of libsimplicity's pipeline (cross-checked against "
-         "run_program) on generated well-typed Elements programs (pruned and unpruned), bit-level and structural mutations and "
-         "random byte strings, filtered by libsimplicity's documented limits; plus a Coq cost reference (12 theorems: witness "
-         "independence, monotonicity, saturation, Rust formula = C formula below 2^32 widths) compared three-way with Rust and C.",
+    text="No theorem mentions the Rust or C code. The universally quantified clause is proved about an executable Coq re"
+         "ference of the whole pipeline (Cdiff/Reference.v: Codec decoder + Infer with root 1->1 + witness fill + Merkle"
+         " CMR/IHR/AMR over SHA-256 + cost), 31 theorems: accept implies canonical unique encoding, well typed and princ"
+         "ipal, witness stream = typed compact values, CMR = Merkle spec, cost = ideal bound clipped; reject classes exa"
+         "ct; compact_value padding is FIPS-minimal for every bit length. Rust and C are each tied to the reference: two"
+         "-way (Rust vs a staged port of libsimplicity's pipeline, cross-checked against run_program) on every generated"
+         " input - well-typed Elements programs pruned and unpruned, witness widths straddling every SHA-256 padding bou"
+         "ndary, bit-level, structural and grammar-based mutations, random bytes - and three-way (vm_compute) on a state"
+         "d sample.",
     note="Level other: the universally quantified clause rests on the comparison; the Coq theorems are about the cost reference "
          "and the verdict classification only.",
-    technique="Rust/C differential testing + Coq cost reference (three-way comparison)")
+    technique="Coq reference of the pipeline + three-way differential (Coq/Rust/C)")
 CHECKS["C06"] = dict(engine="cdiff", category="other", design_ref="DESIGN.md §5 C06, §11.3",
-    text="Differential check: verdict kind of BitMachine::exec vs evalTCOExpression without anti-DoS flags on the same marshalled "
-         "C environment, over generated 1->1 Elements programs and a generated family of transaction environments, plus "
-         "environment probes (one-jet programs whose verdict follows from the environment parameters alone). The Coq part pins "
-         "the verdict classification (injective kind codes, meaning of 'same verdict'); C05 proves the Rust machine model computes "
-         "the semantics.",
+    text="Differential check: verdict kind of BitMachine::exec vs evalTCOExpression without anti-DoS flags on the same m"
+         "arshalled C environment, over generated 1->1 Elements programs and a generated family of transaction environme"
+         "nts, plus environment probes (one-jet programs whose verdict follows from the environment parameters alone). C"
+         "oq is a third party on a dedicated population: the big-step semantics Core/Sem.v with the 306 specified Core j"
+         "ets, compared with Rust and C including the hidden CMR on assertion failures; corollaries of C05's exec_correc"
+         "t for 1->1 programs are pinned (the machine model succeeds / fails with the same kind iff eval does).",
     note="Level other: the C evaluator and C jets are opaque; no theorem mentions them.",
-    technique="Rust/C differential testing + Coq classification lemmas")
+    technique="Rust/C differential testing + Coq semantics as third party (corollaries of the C05 proof)")
 CHECKS["C15"] = dict(engine="env", category="other", design_ref="DESIGN.md §5 C15, §11.3",
-    text="Coq specification of 63 introspection jets as functions of an abstract transaction (selection, absence, encoding, "
-         "issuance/pegin/annex classification) with 11 theorems (results typed for all transactions and indices, in/out of "
-         "range behaviour, current_X = input_X(current), annex, pegin follows the flag; old marshalling refuted), compared with "
-         "one-jet programs executed through ElementsEnv::new + BitMachine on generated transactions; all 91 jets and the "
-         "signature hash are also compared with an oracle written against the elements crate. Pointer lifetimes and Drop are "
-         "only exercised (valgrind in the thorough tier).",
+    text="Coq specification of 63 introspection jets and all 28 hash-composition jets (outputs/inputs/issuances/tx/tap h"
+         "ashes and sig_all_hash, computed with the executable SHA-256 of C09 from the abstract transaction; script/proo"
+         "f hashes and asset ids are data) with 21 theorems (results typed for all transactions and indices, in/out of r"
+         "ange behaviour, current_X = input_X(current), annex, pegin follows the flag, sig_all_hash is a function of exa"
+         "ctly the committed view with five independence lemmas; old marshalling refuted), compared with one-jet program"
+         "s executed through ElementsEnv::new + BitMachine on generated transactions (every nonce / issuance / proof cla"
+         "ss at every position); all 91 jets and the signature hash are also compared with an oracle written against the"
+         " elements crate. Pointer lifetimes and Drop are only exercised (valgrind in the thorough tier).",
     note="Level other: SHA-256 values are data supplied by the harness; the C marshalling code is compared, not proved.",
     technique="Coq specification + theorems about it, compared with executed jets; independent oracle")
 CHECKS["C20"] = dict(engine="conc", category="other", design_ref="DESIGN.md §5 C20, §11.3",
@@ -150,12 +170,14 @@ CHECKS["C18"] = dict(engine="dag", category="proof", design_ref="DESIGN.md §5 C
     note="Trusted: Coq kernel, hand-written model, harness (DagLike over a table, keyed tracker), python recursive references.",
     technique="Coq refinement proof (explicit-stack iterator = recursive specification) + exhaustive-small correspondence")
 CHECKS["C17"] = dict(engine="human", category="proof", design_ref="DESIGN.md §5 C17, §11.3",
-    text="Coq model at the level of definitions (not characters) of naming, rendering (string_serialize: per-object post-order, "
-         "three sections) and resolving (the parser from the line list on: inline expressions, name table, generated names, "
-         "holes, witness path counts): every name referred to is defined exactly once, resolve(render d) is d up to renumbering "
-         "(hence same root/encoding for any bottom-up hash), generated names are fresh, the old per-identity-hash renderer is "
-         "refuted. Lexer, line grammar, type printing/parsing are not modelled: covered by the round-trip search on generated "
-         "programs, generated texts and arbitrary strings (termination, no panic).",
+    text="Definition level: Coq model of naming, rendering (string_serialize: per-object post-order, three sections) and"
+         " resolving (the parser from the line list on): every name referred to is defined exactly once, resolve(render "
+         "d) is d up to renumbering (hence same root/encoding for any bottom-up hash), generated names are fresh, the ol"
+         "d per-identity-hash renderer is refuted. Token level for types: faithful models of Display for Final and of pa"
+         "rse_type/postfix/atom with the nesting budget; every printed type of depth < 1000 parses back to the same type"
+         " consuming exactly its tokens (exact domain, bound shown tight), the parser is total and every accepted type i"
+         "s nested < 1000 deep; the three pre-fix behaviours are refuted. Lexer and line grammar are not modelled: cover"
+         "ed by the round-trip search on generated programs, texts, literal forms and arbitrary strings.",
     note="Trusted: Coq kernel, hand-written model, harness. Open finding F-C17h (non-principal types do not reparse) matched by "
          "a per-case predicate computed in the harness.",
     technique="Coq proof of render/resolve round trip at definition level + round-trip search on programs and texts")
@@ -173,14 +195,16 @@ CHECKS["C09"] = dict(engine="merkle", category="proof", design_ref="DESIGN.md §
     technique="Coq proof parametric in the hash + executable SHA-256 instance + correspondence")
 
 CHECKS["C05"] = dict(engine="core", category="proof", design_ref="DESIGN.md §5 C05/C07, §11.3",
-    text="Coq model of the Rust Bit Machine as written (bit-addressed data with out-of-range access = Panic, frame stacks, explicit "
-         "call stack, one step arm per combinator, exec_jet, input, output via from_padded_bits, for_program) proved correct "
-         "against a big-step semantics by induction on the typing derivation, for arbitrary memory contents, frame positions, "
-         "lower frames and remaining call stack: the result cells are a padded encoding of the semantic value, everything "
-         "outside the write window and the scratch area is unchanged, each error kind occurs exactly when the semantics fail, "
-         "the verdict is independent of initial memory and of the input's padding bits. 306 of 368 Core jets are specified in "
-         "Gallina (the rest are an oracle under a typing hypothesis). Correspondence on generated typed programs (output bits, "
-         "error payloads) and against a python reference evaluator.",
+    text="Coq model of the Rust Bit Machine as written proved correct against a big-step semantics by induction on the t"
+         "yping derivation, for arbitrary memory contents, frame positions, lower frames and remaining call stack: the r"
+         "esult cells are a padded encoding of the semantic value, everything outside the write window and the scratch a"
+         "rea is unchanged, each error kind occurs exactly when the semantics fail, the verdict is independent of initia"
+         "l memory and of the input's padding bits; lifted to the byte-level Value model of C10 (exec returns a well-for"
+         "med Value denoting eval). 342 of 368 Core jets are specified in Gallina, the SHA-256 family over the executabl"
+         "e SHA-256 of C09 with the theorem that init/add/finalize compute SHA-256 of the message; EC and signature jets"
+         " stay an oracle under a typing hypothesis. Correspondence on generated typed programs, template streams (align"
+         "ed copies of 8k+r bits, disconnect with branches of different widths, read-after-drop/case), Value-level strea"
+         "m at shifted buffer offsets, and a python reference evaluator.",
     note="Trusted: Coq kernel, hand-written machine model and jet specifications, harness; Elements jets, C code and the 62 "
          "unspecified Core jets are not modelled.",
     technique="Coq proof of machine correctness by induction on typing + correspondence")
@@ -205,7 +229,7 @@ ENGINES = [
     dict(name="human", path="coq/Human", serves_properties=["C17"], kind_free_text="Coq model of naming/rendering/resolving + round-trip proof"),
     dict(name="infer", path="coq/Infer", serves_properties=["C04"], kind_free_text="Coq reference type inference + proofs"),
     dict(name="redeem", path="coq/Redeem", serves_properties=["C08", "C12"], kind_free_text="Coq models of pruning and witness routes"),
-    dict(name="cdiff", path="coq/Cdiff", serves_properties=["C03", "C06"], kind_free_text="Rust/C differential harness + Coq cost reference"),
+    dict(name="cdiff", path="coq/Cdiff", serves_properties=["C03", "C06"], kind_free_text="Rust/C differential harness + Coq reference of the whole C03 pipeline + Coq semantics as third party"),
     dict(name="env", path="coq/Env", serves_properties=["C15"], kind_free_text="Coq transaction/jet specification + executed-jet comparison"),
     dict(name="conc", path="coq/Conc", serves_properties=["C20"], kind_free_text="Coq interleaving model + concurrent stress harness"),
     dict(name="codec", path="coq/Codec", serves_properties=["C01", "C02"], kind_free_text="Coq model of the program/witness bit codec + proofs"),
